@@ -59,8 +59,8 @@ func checkC12(w *World) {
 					continue
 				}
 				for h := range staticReach(g, func(x *ssa.Function) bool { return fnPkgKey(x) == "exec" }) {
-					if h == nameFn && !hasSelector(nameFn) {
-						nameFn = g // the selector-taking caller of the function with the node tests
+					if h == nameFn {
+						nameFn = g // the selector-taking caller of the function with the node tests: the root
 					}
 				}
 			}
@@ -90,6 +90,22 @@ func checkC12(w *World) {
 		for _, p := range nameFn.Params {
 			if b, ok := p.Type().Underlying().(*types.Basic); ok && b.Info()&types.IsInteger != 0 {
 				selector = p
+			}
+		}
+		// the selector as the parts see it: their parameters that the root (or another part) binds to it
+		selectorVals := map[ssa.Value]bool{}
+		if selector != nil {
+			selectorVals[selector] = true
+		}
+		for round := 0; round < 3; round++ {
+			for _, part := range nameParts {
+				for _, site := range w.callersOf(part) {
+					for i, a := range site.Call.Args {
+						if selectorVals[a] && i < len(part.Params) {
+							selectorVals[part.Params[i]] = true
+						}
+					}
+				}
 			}
 		}
 		type partAssert struct {
@@ -134,7 +150,7 @@ func checkC12(w *World) {
 						}
 					}
 					for _, at := range atoms {
-						if bo, ok := at.V.(*ssa.BinOp); ok && selector != nil && (bo.X == ssa.Value(selector) || bo.Y == ssa.Value(selector)) {
+						if bo, ok := at.V.(*ssa.BinOp); ok && (selectorVals[bo.X] || selectorVals[bo.Y]) {
 							selectorGuard = true
 						}
 					}
